@@ -14,20 +14,31 @@ type token struct {
 	Tokens []*token
 }
 
-func (t *token) Copy() *token {
-	toks := make([]*token, len(t.Tokens))
+// Copy and Replace walk every node once: grouped declarations (a, b T) share their type node,
+// so the tree is a DAG, and walking it as a tree takes time exponential in the nesting depth.
+func (t *token) Copy() *token { return t.copyInto(map[*token]*token{}) }
+
+func (t *token) copyInto(done map[*token]*token) *token {
+	if c, ok := done[t]; ok {
+		return c
+	}
+	c := &token{Pos: t.Pos, Symbol: t.Symbol, Text: t.Text, Tokens: make([]*token, len(t.Tokens))}
+	done[t] = c
 	for i, tt := range t.Tokens {
-		toks[i] = tt.Copy()
+		c.Tokens[i] = tt.copyInto(done)
 	}
-	return &token{
-		Pos:    t.Pos,
-		Symbol: t.Symbol,
-		Text:   t.Text,
-		Tokens: toks,
-	}
+	return c
 }
 
 func (t *token) Replace(sym, newSym, newText string) {
+	t.replaceIn(sym, newSym, newText, map[*token]bool{})
+}
+
+func (t *token) replaceIn(sym, newSym, newText string, done map[*token]bool) {
+	if done[t] {
+		return
+	}
+	done[t] = true
 	if t.Symbol == sym {
 		t.Symbol = newSym
 		t.Text = newText
@@ -35,7 +46,7 @@ func (t *token) Replace(sym, newSym, newText string) {
 		return
 	}
 	for _, tt := range t.Tokens {
-		tt.Replace(sym, newSym, newText)
+		tt.replaceIn(sym, newSym, newText, done)
 	}
 }
 
